@@ -20,7 +20,10 @@ RUNS = [
     dict(harness="harness/C02.cpp", flavour="asan", scale={"quick": 0.05, "thorough": 0.03}, extra_args=["--limit-s", "1200"]),
 ]
 REGIMES = ["meridional", "equatorial", "short-line", "general", "near-antipodal", "coincident", "polar",
-           "equatorial-limit", "equatorial-beyond-limit", "near-equator-prolate"]
+           "equatorial-limit", "equatorial-beyond-limit", "near-equator", "near-equator-prolate"]
+KNOWN_REGIMES = ["exact/very-prolate-lon180-same-hemisphere", "exact/prolate-near-equatorial", "oblate-equatorial-limit", "very-oblate-near-cusp",
+                 "exact/very-oblate-equatorial-just-beyond-limit", "exact/very-oblate-near-equatorial-below-limit", "exact/nearly-coincident-points",
+                 "prolate-lon180-lat2-nearly-minus-lat1"]
 
 
 def extra(res, tier, seed, workdir):
@@ -29,6 +32,8 @@ def extra(res, tier, seed, workdir):
     ev = res.events
     per = {r: ev.get("regime: " + r, 0) for r in REGIMES}
     res.extra["cases_per_regime"] = per
+    res.extra["cases_inside_known_defect_regimes"] = {k: ev.get("cases inside known regime " + k, 0) for k in KNOWN_REGIMES}
+    res.extra["monitor_failures_inside_known_defect_regimes"] = {k: ev.get("monitor failures inside known regime " + k, 0) for k in KNOWN_REGIMES}
     for r, n in per.items():
         if n == 0:
             res.inconclusive.append("regime %r received no case" % r)
